@@ -21,7 +21,7 @@ def alphabet():
     for f in (0, 1, 2, 7):
         for r in (0, 1):
             al.append(f"D:{f}:{r}:0:aa")
-    al += ["A:0:0:1", "A:0:1:6", "N:0:0:1", "N:1:0:4", "R", "K:2:11", "K:2:2", "K:2:85", "E:2:81", "E:2:2", "E:2:200", "D:3:0:1:-"]
+    al += ["A:0:0:1", "A:0:1:6", "N:0:0:1", "N:1:0:4", "R", "K:2:11", "K:2:2", "K:2:85", "K:2:0", "E:2:81", "E:2:2", "E:2:0", "E:2:200", "D:3:0:1:-"]
     return al
 
 
